@@ -3,9 +3,9 @@ import vlib
 from checks import ebpf as B
 from checks import C05, C01
 
-UNITS = ['Opcodes', 'Codec', 'Verifier', 'JitLogic', 'ClCfg']
-MODELS = ['theories/Verifier.vo', 'gen/JitLogic.vo', 'gen/ClCfg.vo']
-PROOFS = ['theories/JitLogicProofs.v', 'theories/VerifierProofs.v', 'theories/ClCfgProofs.v']
+UNITS = ['Opcodes', 'Codec', 'Verifier', 'JitLogic', 'ClCfg', 'JitMem']
+MODELS = ['theories/Verifier.vo', 'gen/JitLogic.vo', 'gen/ClCfg.vo', 'gen/JitMem.vo']
+PROOFS = ['theories/JitLogicProofs.v', 'theories/VerifierProofs.v', 'theories/ClCfgProofs.v', 'theories/JitMemProofs.v']
 
 
 def gen_progs(chk):
@@ -78,6 +78,21 @@ def gen_progs(chk):
     return progs
 
 
+def page_fit_cases(chk):
+    """programs whose x86-64 image has every length in a window below each page boundary (6- and 7-byte instructions: 6n + 7m
+    reaches every length), so that for each VM kind -- their prologues differ in length -- one of them fills its pages exactly"""
+    from checks.interp_common import Case
+    out = []
+    pages = (4096, 8192, 12288, 16384) if chk.tier == 'thorough' else (4096, 8192)
+    for page in pages:
+        for L in range(page - 140, page - 30):
+            m = L % 6
+            n = (L - 7 * m) // 6
+            p = B.alu('mov', 8, imm=1, w=32) * m + B.alu('mov', 0, imm=1, w=32) * n + B.EXIT
+            out.append(Case(p, mem=bytes(16), fam='page-fit:%d' % page))
+    return out
+
+
 HELPER_SETS = ['', '1:mix', '1:mix,2:clobber,3:rsp,2147483647:mix,4294967295:mix']
 
 
@@ -110,12 +125,36 @@ def run(chk):
                                'program_len_insns': len(p) // 8, 'family': progs[i][1], 'engine': eng, 'answer': a[:300],
                                'meaning': ('compilation panicked / crashed / did not return' if a.startswith(('PANIC', 'SIGNAL', 'TIMEOUT')) else
                                            'compiling the same program twice gave different outcomes')})
-        # the compiled code of the second compilation behaves as that of the first: run a sample through both engines twice
+        # images that fill their pages exactly: compile and run on every VM kind
+        pf = page_fit_cases(chk)
+        for kind in ('raw', 'mbuff', 'nodata', 'fixed'):
+            sel = [c for c in pf]
+            if kind == 'nodata':
+                import copy
+                sel = []
+                for c in pf:
+                    c2 = copy.copy(c)
+                    c2.mem = b''
+                    sel.append(c2)
+            pl = [c.line(engine='jit', kind=kind) + (' d=0 e=8 reps=1' if kind == 'fixed' else '') for c in sel]
+            pa = vlib.harness_run(binary, pl)
+            for l, a in zip(pl, pa):
+                k = 'page-fit:%s:%s' % (kind, a.split()[0].split(':')[0])
+                outs[k] = outs.get(k, 0) + 1
+                fams['page-fit'] = fams.get('page-fit', 0) + 1
+                if not a.startswith('OK:1 '):
+                    found = True
+                    if len(chk.violations) < 10:
+                        chk.violation({'kind': 'counterexample', 'request': l if len(l) < 60000 else l[:300] + '...', 'answer': a[:300], 'family': 'page-fit', 'vm_kind': kind,
+                                       'engine': 'jit', 'program_len_insns': (len(l.split('prog=')[1].split()[0]) // 16),
+                                       'meaning': 'a program whose machine code fills its pages exactly was not compiled and run to its value'})
+            lines += pl
+            answers = list(answers) + list(pa)
         chk.cov['evaluations'] = len(lines)
         chk.cov['distinct_nontrivial'] = len({(p, e) for (p, _), e in ((progs[i], eng) for (i, eng, hs) in meta)})
         chk.cov['rule'] = ('verifier-accepted programs: random well-formed instruction streams (1..40 slots, jumps / wide loads / helper and local calls, '
                            'dead code, back edges), every supported opcode with extreme operands, last-instruction kinds, 1000 .. 70000 instructions '
-                           '(250000 and 999999 in the thorough tier), far jumps, thousands of jumps; x 3 helper sets x {x86-64 JIT, Cranelift}; each compiled '
+                           '(250000 and 999999 in the thorough tier), far jumps, thousands of jumps; programs whose x86-64 image has every length in a window below each page boundary (run on the four VM kinds); x 3 helper sets x {x86-64 JIT, Cranelift}; each compiled '
                            'twice in a child process: outcome must be OK or ERR both times')
         chk.cov['input_distribution'] = {'families': fams, 'outcomes': outs}
         chk.cov['samples'] = [{'request': lines[i][:160], 'answer': answers[i]} for i in (0, len(lines) // 2, len(lines) - 1)]
